@@ -8,7 +8,7 @@ META = {
 def queries(tier):
     qs = [Q('cm_merge_acceptance', 'countmin', 'c14_cm.c', defs={'PART': 0, 'NHASH': 1, 'NBUCK': 3, 'NU': 0}, tu_defs={'VERIF_STUB_HASH': None}, unwind=12,
             unwindset={'^(harness|verif_hash128|verif_mem.*|verif_new.*)$': 40}, timeout=(400 if tier == 'quick' else 1800), native_vectors=200, c_defs={'VERIF_NEW_CAPN': 16, 'VERIF_VEC_CAP': 8})]
-    for (nh, nb, nu) in [(1, 3, 1), (1, 3, 2), (2, 3, 2)] + ([(2, 4, 3), (1, 5, 3)] if tier == 'thorough' else []):
+    for (nh, nb, nu) in [(1, 3, 1), (1, 3, 2), (2, 3, 2)] + ([(2, 4, 3)] if tier == 'thorough' else []):   # (1, 5, 3): modulo 5 with three updates, no verdict in 1800 s
         qs.append(Q(f'cm_linear_h{nh}_b{nb}_u{nu}', 'countmin', 'c14_cm.c', defs={'PART': 1, 'NHASH': nh, 'NBUCK': nb, 'NU': nu, 'HM_MAX': 12}, tu_defs={'VERIF_STUB_HASH': None}, unwind=12,
                     unwindset={'^(harness|verif_hash128|verif_mem.*|verif_new.*)$': 40}, timeout=(400 if tier == 'quick' else 1800), native_vectors=200, c_defs={'VERIF_NEW_CAPN': 16, 'VERIF_VEC_CAP': 8}))
     return qs
